@@ -70,7 +70,7 @@ Definition frame_ok (S : sty) (outer : tyenv) (sf : sframe) (df : frame) : Prop 
 
 Inductive env_ok (S : sty) : tyenv -> list frame -> Prop :=
 | EO_nil : env_ok S [] []
-| EO_cons b sf G df e : frame_ok S G sf df -> env_ok S G e -> env_ok S ((b, sf) :: G) (df :: e).
+| EO_cons sf G df e : frame_ok S G sf df -> env_ok S G e -> env_ok S (sf :: G) (df :: e).
 
 Definition full (e : env) (s : state) : list frame := e ++ [st_globals s].
 
@@ -97,7 +97,7 @@ Proof. intros; split; eauto using env_ok_ext. Qed.
 Lemma env_get_sound S G fe n t :
   env_ok S G fe -> slookup n G = Some t -> exists l, env_get n fe = Some l /\ sfind S l = Some t.
 Proof.
-  induction 1 as [|b sf G df e [H1 H2] He IH]; simpl; [discriminate|].
+  induction 1 as [|sf G df e [H1 H2] He IH]; simpl; [discriminate|].
   intros Hs. destruct (sget n sf) as [t0|] eqn:Hg.
   - inversion Hs; subst. destruct (H1 n t Hg) as (l & Hl & Ht). rewrite Hl. eauto.
   - destruct (frame_get n df) as [l|] eqn:Hd.
@@ -432,7 +432,7 @@ Qed.
 
 Lemma frame_ok_replace S T sf df n t l :
   frame_ok S T sf df -> sfind S l = Some t -> frame_get n df <> None ->
-  slookup n ((false, sf) :: T) = Some t ->
+  slookup n (sf :: T) = Some t ->
   frame_ok S T sf (frame_replace n l df).
 Proof.
   intros [H1 H2] Hl Hn Hs; split.
@@ -450,7 +450,7 @@ Lemma env_update_ok S G fe n t l fe' :
   env_ok S G fe -> slookup n G = Some t -> sfind S l = Some t ->
   env_update n l fe = Some fe' -> env_ok S G fe'.
 Proof.
-  intros H; revert fe'. induction H as [|b sf G df e Hf He IH]; intros fe' Hs Hl Hu; simpl in *; [discriminate|].
+  intros H; revert fe'. induction H as [|sf G df e Hf He IH]; intros fe' Hs Hl Hu; simpl in *; [discriminate|].
   destruct (frame_get n df) eqn:Hg.
   - inversion Hu; subst. constructor; auto.
     eapply frame_ok_replace; eauto. congruence.
@@ -508,33 +508,33 @@ Qed.
 Lemma env_ok_push S G fe : env_ok S G fe -> env_ok S (push G) ([] :: fe).
 Proof. intros H. constructor; auto. split; simpl; intros; discriminate. Qed.
 
-Lemma env_ok_pop S b sf G e s :
-  env_ok S ((b, sf) :: G) (full e s) -> G <> [] -> env_ok S G (full (tl e) s) /\ e <> [].
+Lemma env_ok_pop S sf G e s :
+  env_ok S (sf :: G) (full e s) -> G <> [] -> env_ok S G (full (tl e) s) /\ e <> [].
 Proof.
   intros H HG. destruct e as [|d e].
-  - unfold full in H; simpl in H. inversion H; subst. inversion H6; subst. congruence.
+  - unfold full in H; simpl in H. inversion H; subst.
+    match goal with He : env_ok S G [] |- _ => inversion He; subst end. congruence.
   - unfold full in *; simpl in *. inversion H; subst. split; auto. discriminate.
 Qed.
 
 (* growth of the top static frame by declarations *)
-Inductive fgrows (b : bool) (T : tyenv) (sf0 : sframe) : sframe -> Prop :=
-| FG_refl : fgrows b T sf0 sf0
-| FG_decl sf n t : fgrows b T sf0 sf -> sget n sf = None -> binder_ok n = true ->
-    (b = true -> shadow_ok n t T = true) -> fgrows b T sf0 ((n, t) :: sf).
+Inductive fgrows (sf0 : sframe) : sframe -> Prop :=
+| FG_refl : fgrows sf0 sf0
+| FG_decl sf n t : fgrows sf0 sf -> sget n sf = None -> binder_ok n = true -> fgrows sf0 ((n, t) :: sf).
 
 Definition grows (G G' : tyenv) : Prop :=
-  exists b sf0 sf T, G = (b, sf0) :: T /\ G' = (b, sf) :: T /\ fgrows b T sf0 sf.
+  exists sf0 sf T, G = sf0 :: T /\ G' = sf :: T /\ fgrows sf0 sf.
 
-Lemma fgrows_trans b T a c d : fgrows b T a c -> fgrows b T c d -> fgrows b T a d.
+Lemma fgrows_trans a c d : fgrows a c -> fgrows c d -> fgrows a d.
 Proof. intros H1 H2; induction H2; auto. constructor; auto. Qed.
 
 Lemma grows_refl G : G <> [] -> grows G G.
-Proof. destruct G as [|[b sf] T]; [congruence|]. intros _. exists b, sf, sf, T; repeat split; constructor. Qed.
+Proof. destruct G as [|sf T]; [congruence|]. intros _. exists sf, sf, T; repeat split; constructor. Qed.
 
 Lemma grows_trans G1 G2 G3 : grows G1 G2 -> grows G2 G3 -> grows G1 G3.
 Proof.
-  intros (b & a & c & T & -> & -> & H1) (b' & c' & d & T' & E & -> & H2).
-  inversion E; subst. exists b', a, d, T'; repeat split; eauto using fgrows_trans.
+  intros (a & c & T & -> & -> & H1) (c' & d & T' & E & -> & H2).
+  inversion E; subst. exists a, d, T'; repeat split; eauto using fgrows_trans.
 Qed.
 
 Lemma ty_eqb_eq a b : ty_eqb a b = true -> a = b.
@@ -542,24 +542,6 @@ Proof. revert b; induction a; destruct b; simpl; intros H; try discriminate; aut
 
 Lemma ty_eqb_refl a : ty_eqb a a = true.
 Proof. induction a; simpl; auto. Qed.
-
-(* the frame of a for statement, after the body ran, still satisfies the
-   invariant for the frame the next iteration starts with *)
-Lemma frame_ok_shrink S T sf0 sf df :
-  fgrows true T sf0 sf -> frame_ok S T sf df -> frame_ok S T sf0 df.
-Proof.
-  induction 1 as [|sf n t Hg IH Hn Hb Hsh]; auto.
-  intros [H1 H2]. apply IH. split.
-  - intros k t0 Hk. apply H1. simpl. destruct (str_eqb n k) eqn:E; auto.
-    apply str_eqb_eq in E; subst; congruence.
-  - intros k l Hk Hsk t0 Ht0. destruct (str_eqb n k) eqn:E.
-    + apply str_eqb_eq in E; subst k.
-      destruct (H1 n t) as (l' & Hl' & Ht'); [simpl; rewrite str_eqb_refl; reflexivity|].
-      rewrite Hk in Hl'; inversion Hl'; subst.
-      specialize (Hsh eq_refl). unfold shadow_ok in Hsh. rewrite Ht0 in Hsh.
-      apply ty_eqb_eq in Hsh; subst; auto.
-    + eapply H2; eauto. simpl. rewrite E. auto.
-Qed.
 
 (* err / errmsg resolve to the built-in globals *)
 Definition genv_ok (G : tyenv) : Prop :=
@@ -581,12 +563,12 @@ Proof. intros H. simpl. destruct (str_eqb n k) eqn:E; auto. apply str_eqb_eq in 
 
 Lemma genv_ok_grows G G' : grows G G' -> genv_ok G -> genv_ok G'.
 Proof.
-  intros (b & a & c & T & -> & -> & H) HG. induction H; auto.
+  intros (a & c & T & -> & -> & H) HG. induction H; auto.
   destruct IHfgrows as [I1 I2]. apply binder_not_reserved in H1 as (N1 & N2 & _).
   unfold genv_ok in *. cbn [slookup] in *. rewrite !sget_other by auto. auto.
 Qed.
 
-Lemma genv_ok_frame G b v vt : binder_ok v = true -> genv_ok G -> genv_ok ((b, [(v, vt)]) :: G).
+Lemma genv_ok_frame G v vt : binder_ok v = true -> genv_ok G -> genv_ok ([(v, vt)] :: G).
 Proof.
   intros Hb [H1 H2]. apply binder_not_reserved in Hb as (N1 & N2 & _).
   unfold genv_ok; simpl. destruct (str_eqb v n_err) eqn:E1; [apply str_eqb_eq in E1; congruence|].
@@ -1084,10 +1066,10 @@ Definition for_frame (named : option ty) (var : str) (fr0 : sframe) : Prop :=
   end.
 
 Definition for_sound (n : nat) : Prop := forall P ret e var rg body G fr0 named Gb S s,
-  wt_stmts (p_funcs P) ret true ((true, fr0) :: G) body = Some Gb -> s1_stmts body = true ->
-  genv_ok ((true, fr0) :: G) -> inv S ((true, fr0) :: G) e s ->
+  wt_stmts (p_funcs P) ret true (push (fr0 :: G)) body = Some Gb -> s1_stmts body = true ->
+  genv_ok (fr0 :: G) -> inv S (fr0 :: G) e s ->
   for_frame named var fr0 -> rg_ok S named rg ->
-  wp (exec_for n P e var rg body s) (kpost S ((true, fr0) :: G) e).
+  wp (exec_for n P e var rg body s) (kpost S (fr0 :: G) e).
 
 Definition all_sound (n : nat) : Prop :=
   expr_sound n /\ exprs_sound n /\ call_sound n /\ stmt_sound n /\ stmts_sound n /\ block_sound n /\
@@ -1534,11 +1516,11 @@ Lemma wt_stmt_SFor F ret il G var vt r body : wt_stmt F ret il G (SFor var vt r 
       | None => None
       | Some t =>
           let G2 := match var with
-                    | Some v => if binder_ok v && ty_eqb vt t && ty_decl vt then Some ((true, [(v, vt)]) :: G) else None
-                    | None => Some ((true, []) :: G)
+                    | Some v => if binder_ok v && ty_eqb vt t && ty_decl vt then Some ([(v, vt)] :: G) else None
+                    | None => Some ([] :: G)
                     end in
           match G2 with
-          | Some G2 => if is_some (wt_stmts F ret true G2 body) then Some G else None
+          | Some G2 => if is_some (wt_stmts F ret true (push G2) body) then Some G else None
           | None => None
           end
       end.
@@ -1561,8 +1543,8 @@ Lemma s1_stmt_SCallStmt name args : s1_stmt (SCallStmt name args) = mem_str name
 Proof. reflexivity. Qed.
 
 (* ---------- statements: invariant bookkeeping ---------- *)
-Lemma grows_inv b sf0 T G' : grows ((b, sf0) :: T) G' -> exists sf, G' = (b, sf) :: T /\ fgrows b T sf0 sf.
-Proof. intros (b' & a & c & T' & E & -> & H). inversion E; subst. eauto. Qed.
+Lemma grows_inv sf0 T G' : grows (sf0 :: T) G' -> exists sf, G' = sf :: T /\ fgrows sf0 sf.
+Proof. intros (a & c & T' & E & -> & H). inversion E; subst. eauto. Qed.
 
 Lemma inv_nonempty S G e s : inv S G e s -> G <> [].
 Proof.
@@ -1588,7 +1570,7 @@ Qed.
 Lemma inv_push S G e s : inv S G e s -> inv S (push G) ([] :: e) s.
 Proof. intros [Hh He]. split; auto. unfold full; simpl. apply env_ok_push; auto. Qed.
 
-Lemma inv_unpush S b sf G d e s : inv S ((b, sf) :: G) (d :: e) s -> inv S G e s.
+Lemma inv_unpush S sf G d e s : inv S (sf :: G) (d :: e) s -> inv S G e s.
 Proof. intros [Hh He]. split; auto. unfold full in *; simpl in He. inversion He; subst; auto. Qed.
 
 Lemma list_set_Forall {A} (P : A -> Prop) l k x : Forall P l -> P x -> Forall P (list_set l k x).
@@ -1599,13 +1581,6 @@ Qed.
 
 Lemma ty_decl_not_none t : ty_decl t = true -> t <> TNone.
 Proof. unfold ty_decl. intros H E; subst; discriminate. Qed.
-
-Lemma env_ok_shrink S T fr0 G'' fe :
-  grows ((true, fr0) :: T) G'' -> env_ok S G'' fe -> env_ok S ((true, fr0) :: T) fe.
-Proof.
-  intros Hg He. apply grows_inv in Hg as (sf & -> & Hf).
-  inversion He; subst. constructor; auto. eapply frame_ok_shrink; eauto.
-Qed.
 
 Lemma rg_ok_ext S S' named rg : ext S S' -> rg_ok S named rg -> rg_ok S' named rg.
 Proof.
@@ -1751,22 +1726,25 @@ Section CtlStep.
     destruct Hnx as [Hrg' Hl].
     (* rebinding of the loop variable *)
     assert (U : wp (update_var var l e s1)
-                   (fun e1 s2 => inv S1 ((true, fr0) :: G) e1 s2 /\ List.length e1 = List.length e)).
+                   (fun e1 s2 => inv S1 (fr0 :: G) e1 s2 /\ List.length e1 = List.length e)).
     { destruct named as [vt|]; simpl in Hfr.
       - destruct Hfr as [Hbo ->]. pose proof (binder_not_reserved _ Hbo) as (_ & _ & Hus).
         destruct Hi1 as [Hh1 He1].
-        assert (Hsl : slookup var ((true, [(var, vt)]) :: G) = Some vt) by (simpl; rewrite str_eqb_refl; auto).
+        assert (Hsl : slookup var ([(var, vt)] :: G) = Some vt) by (simpl; rewrite str_eqb_refl; auto).
         destruct (env_get_sound _ _ _ _ _ He1 Hsl) as (l0 & Hl0 & _).
         destruct (env_update_some var l (full e s1)) as (fe' & Hfe'); [congruence|].
         eapply wp_mono; [eapply update_var_wp; eauto|]. cbv beta. intros e1 s2 (H1 & H2 & H3).
         split; auto. split; [rewrite H1; auto|]. rewrite H3. eapply env_update_ok; eauto.
       - destruct Hfr as [-> ->]. unfold update_var. simpl. auto. }
     wbind ltac:(exact U). intros e1 s2 [Hi2 Hl2].
-    wbind ltac:(eapply (IHblock P ret true e1 body ((true, fr0) :: G) Gb S1); eauto).
-    intros [sig e2] s3 (S3 & G3 & E3 & Hh3 & Hg3 & He3 & Hl3 & _). simpl in *.
-    assert (Hi3 : inv S3 ((true, fr0) :: G) e2 s3) by (split; eauto using env_ok_shrink).
+    assert (HGne : fr0 :: G <> []) by discriminate.
+    wbind ltac:(eapply (IHblock P ret true ([] :: e1) body (push (fr0 :: G)) Gb S1);
+                eauto using inv_push, genv_ok_push).
+    intros [sig e2'] s3 Hp.
+    eapply (pop_post S1 (fr0 :: G) Gb e1 (sig, e2') s3 sig) in Hp; auto.
+    destruct Hp as (S3 & E3 & Hi3 & Hl3). simpl in *.
     destruct sig.
-    - eapply wp_mono; [eapply (IHfor P ret e2 var rg' body G fr0 named Gb S3); eauto using rg_ok_ext|].
+    - eapply wp_mono; [eapply (IHfor P ret (tl e2') var rg' body G fr0 named Gb S3); eauto using rg_ok_ext|].
       cbv beta. intros [sig4 e4] s4 (S4 & E4 & Hi4 & Hl4). kdone S4.
     - apply wp_ret. kdone S3.
     - apply wp_ret. kdone S3.
@@ -1886,7 +1864,7 @@ Section StmtStep.
          | None => Sem.ret ([] :: e)
          end) s)
        (fun e2 s' => exists S', ext S S' /\
-          inv S' ((true, match var with Some v => [(v, vt)] | None => [] end) :: G) e2 s' /\
+          inv S' ((match var with Some v => [(v, vt)] | None => [] end) :: G) e2 s' /\
           List.length e2 = Datatypes.S (List.length e)).
   Proof.
     intros Hi Hv. destruct var as [v|].
@@ -1899,9 +1877,7 @@ Section StmtStep.
       destruct Hi1 as [_ He1]. rewrite H3 in He1. inversion He1; subst.
       split; [rewrite H1; auto|]. rewrite H4. constructor; auto.
       apply frame_ok_decl; auto.
-    - apply wp_ret. exists S; split; auto using ext_refl. split; auto.
-      destruct Hi as [Hh He]. split; auto. unfold full in *; simpl in *. inversion He; subst.
-      constructor; auto.
+    - apply wp_ret. exists S; split; auto using ext_refl.
   Qed.
 
   Lemma stmt_step : stmt_sound (S f).
@@ -1912,25 +1888,24 @@ Section StmtStep.
       (apply wp_bind; eapply tick_inv; [exact Hi|]; clear s Hi; intros s Hi); pose proof Hi as [Hh He].
     - (* SDecl *)
       cbn [wt_stmt] in Hwt. cbn [s1_stmt] in Hs1. apply andb_true_iff in Hs1 as [Hs1a Hs1b].
-      destruct G as [|[isfor fr] G0]; [discriminate|].
+      destruct G as [|fr G0]; [discriminate|].
       match type of Hwt with (if ?c then _ else _) = _ => destruct c eqn:Ec; inversion Hwt; subst end.
       apply andb_true_iff in Ec as [Ec Ec5]. apply andb_true_iff in Ec as [Ec Ec4].
-      apply andb_true_iff in Ec as [Ec Ec3]. apply andb_true_iff in Ec as [Ec1 Ec2].
+      apply andb_true_iff in Ec as [Ec1 Ec2].
       apply opt_ty_eqb_eq in Ec5. apply negb_true_iff in Ec2.
       pose proof (binder_not_reserved _ Ec1) as (_ & _ & Hus).
       wbind ltac:(eapply IHe; eauto). intros v s1 (S1 & E1 & Hi1 & Hv).
       apply wp_depth_fuel.
       wbind ltac:(eapply copy_or_ref_wp; eauto using ty_decl_not_none; apply Hi1).
       intros c s2 (S2 & E2 & Hh2 & Hg2 & Hc).
-      assert (Hi2 : inv S2 ((isfor, fr) :: G0) e s2) by (eapply inv_step; eauto).
+      assert (Hi2 : inv S2 (fr :: G0) e s2) by (eapply inv_step; eauto).
       wbind ltac:(eapply set_var_wp; eauto). intros e' s3 (H1 & H2 & f0 & rest & H3 & H4).
-      apply wp_ret. exists S2, ((isfor, (name, t) :: fr) :: G0). simpl.
+      apply wp_ret. exists S2, (((name, t) :: fr) :: G0). simpl.
       destruct Hi2 as [_ He2]. rewrite H3 in He2. inversion He2; subst.
       split; [eauto using ext_trans|]. split; [rewrite H1; auto|]. split.
-      { exists isfor, fr, ((name, t) :: fr), G0. repeat split; auto.
-        constructor; [constructor| | |]; auto.
-        - destruct (sget name fr); [discriminate|auto].
-        - intros ->. simpl in Ec3. auto. }
+      { exists fr, ((name, t) :: fr), G0. repeat split; auto.
+        constructor; [constructor| |]; auto.
+        destruct (sget name fr); [discriminate|auto]. }
       split; [|auto]. rewrite H4. constructor; auto.
       apply frame_ok_decl; auto. destruct (sget name fr); [discriminate|auto].
     - (* SAssign *)
@@ -2022,22 +1997,22 @@ Section StmtStep.
       set (fr0 := match var with Some v => [(v, vt)] | None => [] end).
       match type of Hwt with match ?rng with _ => _ end = _ => destruct rng as [t|] eqn:Erng; [|discriminate] end.
       assert (HS : (forall v, var = Some v -> binder_ok v = true /\ vt = t /\ ty_decl vt = true /\ ty_s1 vt = true) /\
-                   (exists Gb, wt_stmts (p_funcs P) ret true ((true, fr0) :: G) body = Some Gb) /\ G' = G).
+                   (exists Gb, wt_stmts (p_funcs P) ret true (push (fr0 :: G)) body = Some Gb) /\ G' = G).
       { destruct var as [v|].
         - match type of Hwt with match (if ?c then _ else _) with _ => _ end = _ => destruct c eqn:Ec; [|discriminate] end.
           apply andb_true_iff in Ec as [Ec Ec3]. apply andb_true_iff in Ec as [Ec1 Ec2]. apply ty_eqb_eq in Ec2.
-          destruct (wt_stmts (p_funcs P) ret true ((true, [(v, vt)]) :: G) body) as [Gb|] eqn:Eb; inversion Hwt; subst.
+          destruct (wt_stmts (p_funcs P) ret true (push ([(v, vt)] :: G)) body) as [Gb|] eqn:Eb; inversion Hwt; subst.
           split; [|eauto]. intros v0 Hv0; inversion Hv0; subst; auto.
-        - destruct (wt_stmts (p_funcs P) ret true ((true, []) :: G) body) as [Gb|] eqn:Eb; inversion Hwt; subst.
+        - destruct (wt_stmts (p_funcs P) ret true (push ([] :: G)) body) as [Gb|] eqn:Eb; inversion Hwt; subst.
           split; [|eauto]. discriminate. }
       destruct HS as (Hvar & (Gb & Hbody) & ->). clear Hwt.
-      assert (HG2 : genv_ok ((true, fr0) :: G)).
+      assert (HG2 : genv_ok (fr0 :: G)).
       { unfold fr0. destruct var as [v|]; [|exact HG]. destruct (Hvar v eq_refl) as (Hb & _). apply genv_ok_frame; auto. }
       assert (Hff : for_frame named vname fr0).
       { unfold named, vname, fr0. destruct var as [v|]; simpl; auto. destruct (Hvar v eq_refl); auto. }
       pose proof (inv_push _ _ _ _ Hi) as Hip.
       apply wp_bind.
-      eapply (wp_mono _ (fun p s' => exists S', ext S S' /\ inv S' ((true, fr0) :: G) (snd p) s' /\
+      eapply (wp_mono _ (fun p s' => exists S', ext S S' /\ inv S' (fr0 :: G) (snd p) s' /\
                             rg_ok S' named (fst p) /\ List.length (snd p) = Datatypes.S (List.length e))).
       { destruct r as [start stop step|y].
         - (* step range *)
@@ -2113,7 +2088,7 @@ Qed.
 Definition goes_wrong (o : outcome) : Prop :=
   match o with OErr (EInternal _) | OErr (EHostCrash _) => True | _ => False end.
 
-Definition genv0 : tyenv := [(false, global_frame0)].
+Definition genv0 : tyenv := [global_frame0].
 
 (* a state a run may start from: some store typing makes the heap well typed
    and the globals are the built-in ones at their types *)
